@@ -68,7 +68,7 @@ func runC08(c *Ctx) {
 			localDelay()
 		}
 	})
-	n := c.N(64, 800)
+	n := c.N(64, 400)
 	for i := 0; i < n; i++ {
 		if i%c.NParts != c.Part {
 			continue
@@ -80,7 +80,7 @@ func runC08(c *Ctx) {
 			Goroutines: lab.Pick(rng, []int{2, 3, 4, 8, 16, 32, 64}), NKeys: lab.Pick(rng, []int{1, 4, 32, 1000}), Delays: rng.Chance(0.6),
 			KeyKind: lab.Pick(rng, []string{"int", "string"}), Stream: uint64(i),
 		}
-		cs.Ops = c.N(60000, 80000) / cs.Goroutines
+		cs.Ops = c.N(60000, 60000) / cs.Goroutines
 		cs.Name = fmt.Sprintf("c08-bi%d-nc%d-mc%d-m%v-cb%v-ttl%v-sb%d-g%d", cs.BufferItems, cs.NumCounters, cs.MaxCost, cs.Metrics, cs.Callbacks, cs.TTL, cs.SetBuf, cs.Goroutines)
 		c.J.Case(cs)
 		if cs.KeyKind == "int" {
